@@ -191,43 +191,49 @@ Definition dhole (k : hkind) (st : dstate) : option dstate :=
 Definition doc_quotes_ok (t : tx) : bool :=
   match tx_run dstate_eqb dstep dhole t DOut with Some DOut => true | _ => false end.
 
-(* -- record labels: nesting depth of { } and the backslash state.  Literal structure characters of a template
-   move the depth; '|' only separates fields inside braces; '<' '>' (ports) are not used by the exporters and
-   rejected. *)
+(* -- record labels as the exporters write them: one flat record  { field | field | ... }.
+   LStart: nothing read; LIn r: inside the braces, r = backslash state; LDone: closed, nothing may follow.
+   Graphviz (parse_reclbl) accepts exactly such texts among those without nested braces and ports. *)
+Inductive lstate := LStart | LIn (r : rstate) | LDone.
 Definition rstate_eqb (a b : rstate) : bool := match a, b with RNorm, RNorm | RBs, RBs => true | _, _ => false end.
-Definition lab_eqb (a b : nat * rstate) : bool := Nat.eqb (fst a) (fst b) && rstate_eqb (snd a) (snd b).
-
-Definition lstep (st : nat * rstate) (c : N) : option (nat * rstate) :=
-  let '(d, r) := st in
-  match r with
-  | RBs => Some (d, RNorm)
-  | RNorm =>
-      if N.eqb c 123 then Some (S d, RNorm)
-      else if N.eqb c 125 then match d with O => None | S d' => Some (d', RNorm) end
-      else if N.eqb c 124 then match d with O => None | S _ => Some (d, RNorm) end
-      else if N.eqb c 60 || N.eqb c 62 then None
-      else if N.eqb c c_bslash then Some (d, RBs) else Some (d, RNorm)
+Definition lstate_eqb (a b : lstate) : bool :=
+  match a, b with
+  | LStart, LStart | LDone, LDone => true
+  | LIn x, LIn y => rstate_eqb x y
+  | _, _ => false
   end.
 
+Definition lstep (st : lstate) (c : N) : option lstate :=
+  match st with
+  | LStart => if N.eqb c 123 then Some (LIn RNorm) else None
+  | LIn RBs => Some (LIn RNorm)
+  | LIn RNorm =>
+      if N.eqb c 125 then Some LDone
+      else if N.eqb c 124 then Some (LIn RNorm)
+      else if N.eqb c 123 || N.eqb c 60 || N.eqb c 62 then None
+      else if N.eqb c c_bslash then Some (LIn RBs) else Some (LIn RNorm)
+  | LDone => None
+  end.
+Definition lrun := run lstep.
+
 (* holes inside a label: only in the ordinary state (a hole may be empty), and only text that exposes nothing *)
-Definition lhole (k : hkind) (st : nat * rstate) : option (nat * rstate) :=
-  match k, snd st with
-  | (HDigits | HIdent | HPlain | HEscaped | HPrim), RNorm => Some st
+Definition lhole (k : hkind) (st : lstate) : option lstate :=
+  match k, st with
+  | (HDigits | HIdent | HPlain | HEscaped | HPrim), LIn RNorm => Some st
   | _, _ => None
   end.
 
-(* a label is one record: it opens a brace first and is balanced at the end *)
 Definition label_ok (t : tx) : bool :=
-  match tx_run lab_eqb lstep lhole t (0%nat, RNorm) with Some (O, RNorm) => true | _ => false end.
+  match tx_run lstate_eqb lstep lhole t LStart with Some LDone => true | _ => false end.
 
-(* -- PlantUML: depth of { } *)
-Definition bstep (d : nat) (c : N) : option nat :=
-  if N.eqb c 123 then Some (S d)
-  else if N.eqb c 125 then match d with O => None | S d' => Some d' end
+(* -- PlantUML: class bodies { ... } are not nested; None: a brace that opens inside a body or closes nothing *)
+Definition bstep (d : bool) (c : N) : option bool :=
+  if N.eqb c 123 then (if d then None else Some true)
+  else if N.eqb c 125 then (if d then Some false else None)
   else Some d.
 Definition brun := run bstep.
 
-Definition bhole (k : hkind) (d : nat) : option nat :=
+Definition bhole (k : hkind) (d : bool) : option bool :=
   match k with
   | HDigits | HIdent | HPlain => Some d
   | _ => None
@@ -242,7 +248,7 @@ Definition plantuml_body (t : tx) : tx :=
   end.
 
 Definition braces_ok (t : tx) : bool :=
-  match tx_run Nat.eqb bstep bhole t 0%nat with Some O => true | _ => false end.
+  match tx_run Bool.eqb bstep bhole t false with Some false => true | _ => false end.
 
 (* ---------------------------------------------------------------- safety of the escape chain (decidable) *)
 Definition opt_bool_eqb (a b : option bool) : bool :=
